@@ -190,6 +190,147 @@ func runConfig(c *fw.Ctx, cf config) {
 		"example_history": encdrv.HistString(cf.k, lastOr(frontier))})
 }
 
+// ---- block payloads of every size in a range (boundaries of whatever internal buffers the writer uses)
+
+func pseudoASCII(n int, seed uint32) string {
+	b := make([]byte, n)
+	for i := range b {
+		seed = seed*1664525 + 1013904223
+		b[i] = 0x20 + byte((seed>>24)%95)
+	}
+	return string(b)
+}
+
+func sizeList(tier string) []int {
+	var ls []int
+	max := 1500
+	if tier == "thorough" {
+		max = 9000
+	}
+	for l := 0; l <= max; l++ {
+		ls = append(ls, l)
+	}
+	for k := 11; k <= 17; k++ {
+		for d := -4; d <= 4; d++ {
+			if l := 1<<uint(k) + d; l > max {
+				ls = append(ls, l)
+			}
+		}
+	}
+	return ls
+}
+
+// runSizes: for every record size L of the list (incompressible text, so the compressed block length sweeps the
+// range too): encode(L), encode(L) with block size 0 — two single-record blocks — then encode(1B), flush.
+func runSizes(c *fw.Ctx, codec string) {
+	ls := sizeList(c.Tier)
+	for _, l := range ls {
+		k := encdrv.Kind{Name: "struct{S string} (size sweep)", Records: []string{pseudoASCII(l, uint32(l)+7), "z"}, Schema: encdrv.K1.Schema}
+		cf := config{k, codec, 0, 4}
+		if _, ok := runHistory(c, cf, []int{0, 0, 1, 2}, 0); ok {
+			c.Nontrivial(fmt.Sprintf("size/%s/%d", codec, l))
+		}
+	}
+	c.Count("states", int64(len(ls)))
+	c.Count("transitions", int64(4*len(ls)))
+	c.Count("traces_validated_against_impl", int64(4*len(ls)))
+	c.Sample(map[string]interface{}{"kind": "record-size sweep", "codec": codec, "sizes": len(ls), "largest": ls[len(ls)-1]})
+}
+
+// ---- a writer that is not ready once
+
+var errRefused = fmt.Errorf("writer not ready (nothing consumed)")
+
+type armWriter struct {
+	bytes.Buffer
+	armed bool
+	fired int
+}
+
+func (w *armWriter) Write(p []byte) (int, error) {
+	if w.armed {
+		w.armed = false
+		w.fired++
+		return 0, errRefused
+	}
+	return w.Buffer.Write(p)
+}
+
+// runRefused: every history up to the depth, and in it every explicit flush that has records pending: the writer
+// refuses that flush's first write once without consuming anything; the flush is called again. "A block is
+// emitted whenever flush is called with records pending, so after flush returns nothing remains buffered; no
+// record is lost" — the retried flush must emit exactly the block, and the rest of the history must go on as in
+// the model.
+func runRefused(c *fw.Ctx, cf config) {
+	var n, trans int64
+	var hist func(h []int)
+	run := func(h []int, at int) {
+		desc := fmt.Sprintf("%s codec=%s blocksize=%d history=[%s], first write of call %d (flush) refused once, flush retried", cf.k.Name, cf.codec, cf.bs, encdrv.HistString(cf.k, h), at)
+		locus := fmt.Sprintf("%s|bs=%s|refused-flush", cf.k.Name, bsClass(cf))
+		detail := map[string]interface{}{"type": cf.k.Name, "codec": cf.codec, "blocksize": cf.bs, "history": encdrv.HistString(cf.k, h), "refused_call": at}
+		c.Eval(1)
+		c.Begin(locus, desc)
+		c.Guard(locus, desc, detail, func() {
+			var w armWriter
+			e, err := encdrv.New(cf.k, &w, cf.codec, cf.bs)
+			if err != nil {
+				c.Violation("ctor-error|"+locus, err.Error()+" — "+desc, detail)
+				return
+			}
+			m := &encdrv.Model{K: cf.k, BlockSize: cf.bs}
+			for i, op := range h {
+				trans++
+				if i == at {
+					w.armed = true
+					e.Flush() // refused; what it returns is C16's business
+					w.armed = false
+					if w.fired == 0 {
+						c.Violation("harness-refusal-not-reached|"+locus, desc, detail)
+						return
+					}
+				}
+				if cf.k.IsFlush(op) {
+					err = e.Flush()
+				} else {
+					err = e.Encode(op)
+				}
+				m.Step(op)
+				if err != nil {
+					c.Violation("spurious-error|"+locus, fmt.Sprintf("call %d returned %v — %s", i, err, desc), detail)
+					return
+				}
+				if sig, msg := m.CheckOutput(w.Bytes(), cf.codec); sig != "" {
+					c.Violation(sig+"|"+locus, fmt.Sprintf("after call %d: %s — %s", i, msg, desc), detail)
+					return
+				}
+			}
+			c.Nontrivial(desc)
+			n++
+		})
+	}
+	hist = func(h []int) {
+		// which calls of h are flushes with records pending?
+		m := &encdrv.Model{K: cf.k, BlockSize: cf.bs}
+		for i, op := range h {
+			if cf.k.IsFlush(op) && len(m.Pending) > 0 {
+				run(h, i)
+			}
+			m.Step(op)
+		}
+		if len(h) == cf.depth {
+			return
+		}
+		for op := 0; op < cf.k.NumOps(); op++ {
+			hist(append(append([]int(nil), h...), op))
+		}
+	}
+	hist(nil)
+	c.Count("states", n)
+	c.Count("transitions", trans)
+	c.Count("traces_validated_against_impl", trans)
+	c.Sample(map[string]interface{}{"kind": "refused first write of a flush, flush retried", "type": cf.k.Name, "codec": cf.codec, "blocksize": cf.bs, "histories_with_a_refused_flush": n})
+}
+
 func lastOr(f [][]int) []int {
 	if len(f) == 0 {
 		return nil
@@ -206,15 +347,33 @@ func init() {
 			if tier == "thorough" {
 				d1, d0 = 8, 12
 			}
-			return fmt.Sprintf("explicit-state BFS over call histories of the real Encoder[T]: alphabet {encode(1B), encode(10B), encode(41B), flush} to depth %d for struct{S string} with block sizes {0,1,10,11,20,2^20}, the same with records of 102/9002/20003 bytes (block lengths in the 2- and 3-byte varint ranges) and with a 1.3 MB record between small ones (depth 4), and {encode(0B), flush} to depth %d for struct{} with block sizes {0,1,2^20}, × {null,deflate,snappy}; successor = replay of the shortest history on a fresh encoder + one call; states deduplicated on (pending records, sync-normalised output hash); after every call the whole output is parsed by the reference container parser and compared with the lock-step model {pending []record}; distinct_nontrivial counts distinct (config, history) pairs checked", d1, d0)
+			return fmt.Sprintf("explicit-state BFS over call histories of the real Encoder[T]: alphabet {encode(1B), encode(10B), encode(41B), flush} to depth %d for struct{S string} with block sizes {0,1,10,11,20,2^20}, the same with records of 102/9002/20003 bytes (block lengths in the 2- and 3-byte varint ranges) and with a 1.3 MB record between small ones (depth 4), and {encode(0B), flush} to depth %d for struct{} with block sizes {0,1,2^20}, × {null,deflate,snappy}; plus a sweep of every record size 0..1500 bytes (9000 thorough) and 2^k±4 up to 128 KiB of incompressible text (so the compressed block length sweeps the range as well) as two single-record blocks; plus every history of depth<=4 (5) over block sizes {0,10,2^20} in which, for every explicit flush with records pending, the writer refuses that flush's first write once (nothing consumed) and the flush is retried; successor = replay of the shortest history on a fresh encoder + one call; states deduplicated on (pending records, sync-normalised output hash); after every call the whole output is parsed by the reference container parser and compared with the lock-step model {pending []record}; distinct_nontrivial counts distinct (config, history) pairs checked", d1, d0)
 		},
 		Assumptions: []string{
 			"records are drawn from a 3-size alphabet (1, 10, 41 encoded bytes) plus the zero-byte record; larger records and other block sizes are not explored",
 			"canonical state = (pending record list, hash of all output with the random sync marker normalised): Encoder holds no other mutable state that influences the future (count, wb, compressor scratch overwritten per block)",
 			"reference container parser / decompressors (stdlib flate, golang/snappy) are trusted",
 		},
-		NumCases: func(tier string) int { return len(configs(tier)) },
+		NumCases: func(tier string) int { return len(configs(tier)) + 3 + 9 },
 		RunCase: func(c *fw.Ctx, idx int) {
+			n := len(configs(c.Tier))
+			codecs := []string{"null", "deflate", "snappy"}
+			if idx >= n+3 {
+				j := idx - n - 3
+				d := 4
+				if c.Tier == "thorough" {
+					d = 5
+				}
+				cf := config{encdrv.K1, codecs[j/3], []int{0, 10, 1 << 20}[j%3], d}
+				c.Begin("c09", fmt.Sprintf("refused flush %s bs=%d", cf.codec, cf.bs))
+				runRefused(c, cf)
+				return
+			}
+			if idx >= n {
+				c.Begin("c09", "size sweep "+codecs[idx-n])
+				runSizes(c, codecs[idx-n])
+				return
+			}
 			cf := configs(c.Tier)[idx]
 			c.Begin("c09", fmt.Sprintf("%s %s bs=%d", cf.k.Name, cf.codec, cf.bs))
 			runConfig(c, cf)
